@@ -380,4 +380,419 @@ theorem example_resume_mid_row :
       ([[[.int 1, .int 1], [.int 1, .int 1]], [[.int 1, .int 1], [.int 1, .int 1]],
         [[.int 1, .int 1], [.int 1, .int 1]]], true) := by decide +kernel
 
+
+/-! ### nested loop join -/
+
+theorem nlInner_spec (N : NEnv) (l : Row) (rs : List Row) : ∀ b m,
+    (nlInner N l rs b m).1 ++ ((nlInner N l rs b m).2.1.filter (N.cond l)).map (l ++ ·) =
+      b ++ (rs.filter (N.cond l)).map (l ++ ·) ∧
+    ((nlInner N l rs b m).2.2.2 = false →
+      (nlInner N l rs b m).2.1 = [] ∧ (nlInner N l rs b m).2.2.1 = (m || rs.any (N.cond l))) ∧
+    ((nlInner N l rs b m).2.2.2 = true →
+      N.cap ≤ (nlInner N l rs b m).1.length ∧ (nlInner N l rs b m).2.2.1 = true ∧ rs.any (N.cond l) = true) := by
+  induction rs with
+  | nil => intro b m; simp [nlInner]
+  | cons r rs ih =>
+    intro b m
+    unfold nlInner
+    by_cases hc : N.cond l r = true
+    · simp only [hc, if_true]
+      by_cases hf : (b ++ [l ++ r]).length ≥ N.cap
+      · simp only [if_pos hf]
+        refine ⟨by simp [List.filter_cons, hc], by simp, ?_⟩
+        intro _; refine ⟨hf, ?_, ?_⟩ <;> simp [hc]
+      · simp only [if_neg hf]
+        obtain ⟨a, b', c⟩ := ih (b ++ [l ++ r]) true
+        refine ⟨by rw [a]; simp [List.filter_cons, hc], ?_, ?_⟩
+        · intro h; obtain ⟨x, y⟩ := b' h; exact ⟨x, by rw [y]; simp [hc]⟩
+        · intro h; obtain ⟨x, y, z⟩ := c h; exact ⟨x, y, by simp [hc]⟩
+    · have hc' : N.cond l r = false := by simpa using hc
+      simp only [hc', Bool.false_eq_true, if_false]
+      obtain ⟨a, b', c⟩ := ih b m
+      refine ⟨by rw [a]; simp [List.filter_cons, hc'], ?_, ?_⟩
+      · intro h; obtain ⟨x, y⟩ := b' h; exact ⟨x, by rw [y]; simp [hc']⟩
+      · intro h; obtain ⟨x, y, z⟩ := c h; exact ⟨x, y, by simp [hc', z]⟩
+
+/-- what the current left row still has to contribute, given the right rows not visited yet
+and `current_left_matched` -/
+def nlRowRem (N : NEnv) (l : Row) (rr : List Row) (m : Bool) : List Row :=
+  (rr.filter (N.cond l)).map (l ++ ·) ++
+    (if N.jt = .left ∧ (m || rr.any (N.cond l)) = false then [l ++ nulls N.rcols] else [])
+
+def nlRowOut (N : NEnv) (l : Row) : List Row := nlRowRem N l N.rights false
+
+def nlRem (N : NEnv) : List Row → Option (List Row × Bool) → List Row
+  | [], _ => []
+  | l :: ls, rp => nlRowRem N l (rp.getD (N.rights, false)).1 (rp.getD (N.rights, false)).2 ++ ls.flatMap (nlRowOut N)
+
+theorem nlRem_nil (N : NEnv) (rp : Option (List Row × Bool)) : nlRem N [] rp = [] := by simp [nlRem]
+
+theorem nlRem_none (N : NEnv) (rows : List Row) : nlRem N rows none = rows.flatMap (nlRowOut N) := by
+  cases rows <;> simp [nlRem, nlRowOut]
+
+theorem nlLoop_spec (N : NEnv) (hcap : 1 ≤ N.cap) (rows : List Row) : ∀ rp b,
+    (nlLoop N rows rp b).b ++ nlRem N (nlLoop N rows rp b).rest (nlLoop N rows rp b).rpos = b ++ nlRem N rows rp ∧
+    ((nlLoop N rows rp b).full = false → (nlLoop N rows rp b).rest = [] ∧ (nlLoop N rows rp b).rpos = none) ∧
+    ((nlLoop N rows rp b).full = true → (nlLoop N rows rp b).b ≠ []) := by
+  induction rows with
+  | nil => intro rp b; simp [nlLoop, nlRem]
+  | cons l ls ih =>
+    intro rp b
+    unfold nlLoop
+    simp only
+    obtain ⟨e1, e2, e3⟩ := nlInner_spec N l (rp.getD (N.rights, false)).1 b (rp.getD (N.rights, false)).2
+    generalize nlInner N l (rp.getD (N.rights, false)).1 b (rp.getD (N.rights, false)).2 = r at e1 e2 e3
+    obtain ⟨rb, rr, rm, rf⟩ := r
+    simp only at e1 e2 e3 ⊢
+    cases rf with
+    | true =>
+      obtain ⟨h1, h2, h3⟩ := e3 rfl
+      subst h2
+      simp only [if_true]
+      refine ⟨?_, by simp, ?_⟩
+      · simp only [nlRem, Option.getD_some, nlRowRem, h3, Bool.or_true, Bool.true_or, Bool.true_eq_false,
+          and_false, if_false, List.append_nil]
+        rw [← List.append_assoc, e1, List.append_assoc]
+      · intro _ h0; rw [h0] at h1; simp at h1; omega
+    | false =>
+      obtain ⟨h1, h2⟩ := e2 rfl
+      subst h1
+      simp only [Bool.false_eq_true, if_false, List.filter_nil, List.map_nil, List.append_nil] at e1 ⊢
+      have hrow : nlRem N (l :: ls) rp = (((rp.getD (N.rights, false)).1.filter (N.cond l)).map (l ++ ·) ++
+          (if N.jt = .left ∧ rm = false then [l ++ nulls N.rcols] else [])) ++ ls.flatMap (nlRowOut N) := by
+        simp only [nlRem, nlRowRem, h2]
+      by_cases hu : N.jt = .left ∧ rm = false
+      · simp only [if_pos hu] at hrow ⊢
+        by_cases hf : (rb ++ [l ++ nulls N.rcols]).length ≥ N.cap
+        · simp only [if_pos hf]
+          refine ⟨?_, by simp, by simp⟩
+          rw [hrow, e1, nlRem_none]; simp [List.append_assoc]
+        · simp only [if_neg hf]
+          obtain ⟨a, b', c⟩ := ih none (rb ++ [l ++ nulls N.rcols])
+          refine ⟨?_, b', c⟩
+          rw [a, hrow, e1, nlRem_none]; simp [List.append_assoc]
+      · simp only [if_neg hu] at hrow ⊢
+        obtain ⟨a, b', c⟩ := ih none rb
+        refine ⟨?_, b', c⟩
+        rw [a, hrow, e1, nlRem_none]; simp [List.append_assoc]
+
+def nlSRem (N : NEnv) (s : NState) : List Row :=
+  nlRem N (s.cur.getD []) s.rpos ++ s.left.flatMap fun c => c.flatMap (nlRowOut N)
+
+theorem nlPull_spec (N : NEnv) (hcap : 1 ≤ N.cap) (cs : List Chunk) :
+    ((nlPull N cs).1 = none → (cs.flatMap fun c => c.flatMap (nlRowOut N)) = []) ∧
+    (∀ c, (nlPull N cs).1 = some c →
+      c ≠ [] ∧ (cs.flatMap fun c => c.flatMap (nlRowOut N)) = c ++ nlSRem N (nlPull N cs).2) := by
+  induction cs with
+  | nil => simp [nlPull]
+  | cons c cs ih =>
+    unfold nlPull
+    obtain ⟨e1, e2, e3⟩ := nlLoop_spec N hcap c none []
+    generalize nlLoop N c none [] = r at e1 e2 e3
+    simp only [List.nil_append, nlRem_none] at e1
+    simp only
+    by_cases hf : r.full = true
+    · simp only [hf, if_true]
+      refine ⟨by simp, ?_⟩
+      intro c' hc'
+      simp only [Option.some.injEq] at hc'
+      subst hc'
+      exact ⟨e3 hf, by simp [nlSRem, List.flatMap_cons, ← e1, List.append_assoc]⟩
+    · have hf' : r.full = false := by simpa using hf
+      obtain ⟨h1, h2⟩ := e2 hf'
+      simp only [hf', Bool.false_eq_true, if_false]
+      rw [h1, h2] at e1
+      simp only [nlRem_nil, List.append_nil] at e1
+      by_cases hb : r.b = []
+      · simp only [hb, ne_eq, not_true_eq_false, if_false]
+        rw [hb] at e1
+        simp only [List.flatMap_cons, ← e1, List.nil_append]
+        exact ih
+      · simp only [ne_eq, hb, not_false_eq_true, if_true]
+        refine ⟨by simp, ?_⟩
+        intro c' hc'
+        simp only [Option.some.injEq] at hc'
+        subst hc'
+        exact ⟨hb, by simp [nlSRem, List.flatMap_cons, ← e1, nlRem]⟩
+
+theorem nlPull_state (N : NEnv) (cs : List Chunk) :
+    (nlPull N cs).2.cur = none → (nlPull N cs).2.rpos = none := by
+  induction cs with
+  | nil => simp [nlPull]
+  | cons c cs ih =>
+    unfold nlPull
+    generalize nlLoop N c none [] = r
+    simp only
+    by_cases hf : r.full = true
+    · simp [hf]
+    · have hf' : r.full = false := by simpa using hf
+      simp only [hf', Bool.false_eq_true, if_false]
+      by_cases hb : r.b = []
+      · simp only [hb, ne_eq, not_true_eq_false, if_false]; exact ih
+      · simp [hb]
+
+theorem nlRowOut_noRight (N : NEnv) (hr : N.rights = []) (hj : N.jt ≠ .left) (l : Row) : nlRowOut N l = [] := by
+  simp [nlRowOut, nlRowRem, hr, hj]
+
+theorem nlNext_spec (N : NEnv) (hcap : 1 ≤ N.cap) (hw : N.noRight = true → N.rights = []) (s : NState)
+    (hs : s.cur = none → s.rpos = none) (hs2 : N.noRight = true ∧ N.jt ≠ .left → s.cur = none) :
+    match nlNext N s with
+    | (none, _) => nlSRem N s = []
+    | (some c, s') => c ≠ [] ∧ nlSRem N s = c ++ nlSRem N s' ∧
+        ((s'.cur = none → s'.rpos = none) ∧ (N.noRight = true ∧ N.jt ≠ .left → s'.cur = none)) := by
+  unfold nlNext
+  by_cases h0 : N.noRight = true ∧ N.jt ≠ .left
+  · simp only [if_pos h0]
+    have hcur := hs2 h0
+    simp [nlSRem, hcur, nlRem, nlRowOut_noRight N (hw h0.1) h0.2]
+  · simp only [if_neg h0]
+    cases hcur : s.cur with
+    | none =>
+      simp only
+      have hr : nlSRem N s = s.left.flatMap fun c => c.flatMap (nlRowOut N) := by
+        simp [nlSRem, hcur, nlRem]
+      obtain ⟨p1, p2⟩ := nlPull_spec N hcap s.left
+      rcases hn : nlPull N s.left with ⟨o, s'⟩
+      rw [hn] at p1 p2
+      cases o with
+      | none => simp only; rw [hr]; exact p1 rfl
+      | some c =>
+        simp only
+        obtain ⟨q1, q2⟩ := p2 c rfl
+        refine ⟨q1, by rw [hr]; exact q2, ?_, fun h => absurd h h0⟩
+        have h3 := nlPull_state N s.left
+        rw [hn] at h3
+        exact h3
+    | some rest =>
+      simp only
+      obtain ⟨e1, e2, e3⟩ := nlLoop_spec N hcap rest s.rpos []
+      generalize nlLoop N rest s.rpos [] = r at e1 e2 e3
+      simp only [List.nil_append] at e1
+      have hr : nlSRem N s = nlRem N rest s.rpos ++ s.left.flatMap fun c => c.flatMap (nlRowOut N) := by
+        simp [nlSRem, hcur]
+      by_cases hf : r.full = true
+      · simp only [hf, if_true]
+        refine ⟨e3 hf, by rw [hr, ← e1]; simp [nlSRem, List.append_assoc], by simp, fun h => absurd h h0⟩
+      · have hf' : r.full = false := by simpa using hf
+        obtain ⟨h1, h2⟩ := e2 hf'
+        simp only [hf', Bool.false_eq_true, if_false]
+        rw [h1, h2] at e1
+        simp only [nlRem_nil, List.append_nil] at e1
+        by_cases hb : r.b = []
+        · simp only [hb, ne_eq, not_true_eq_false, if_false]
+          rw [hb] at e1
+          have hr' : nlSRem N s = s.left.flatMap fun c => c.flatMap (nlRowOut N) := by rw [hr, ← e1]; simp
+          obtain ⟨p1, p2⟩ := nlPull_spec N hcap s.left
+          rcases hn : nlPull N s.left with ⟨o, s'⟩
+          rw [hn] at p1 p2
+          cases o with
+          | none => simp only; rw [hr']; exact p1 rfl
+          | some c =>
+            simp only
+            obtain ⟨q1, q2⟩ := p2 c rfl
+            refine ⟨q1, by rw [hr']; exact q2, ?_, fun h => absurd h h0⟩
+            have h3 := nlPull_state N s.left
+            rw [hn] at h3
+            exact h3
+        · simp only [ne_eq, hb, not_false_eq_true, if_true]
+          refine ⟨by simp [hb], by rw [hr, ← e1]; simp [nlSRem, nlRem], by simp, fun h => absurd h h0⟩
+
+/-- **Main theorem (nested loop join).** For every join type, condition, both inputs, every
+chunking of both and every capacity ≥ 1: the operator terminates, no output chunk is empty, and
+the concatenated output is, as an exact sequence, the left rows in order, each with its matching
+right rows in right order (LEFT: or once, NULL-padded, when it has none) — no pair is dropped or
+repeated when the operator returns a full chunk and resumes in the middle of a left row. -/
+theorem nlJoin_rows (jt : JT) (cap rcols : Nat) (cond : Row → Row → Bool) (left right : List Chunk)
+    (hcap : 1 ≤ cap) (fuel : Nat)
+    (hfuel : (left.flatten.flatMap (nlRowOut (mkNEnv jt cap rcols cond right))).length < fuel) :
+    (nlJoin jt cap rcols cond left right fuel).2 = true ∧
+    (nlJoin jt cap rcols cond left right fuel).1.flatten =
+      left.flatten.flatMap (nlRowOut (mkNEnv jt cap rcols cond right)) ∧
+    ∀ c ∈ (nlJoin jt cap rcols cond left right fuel).1, c ≠ [] := by
+  have hw : (mkNEnv jt cap rcols cond right).noRight = true → (mkNEnv jt cap rcols cond right).rights = [] := by
+    intro h; simp only [mkNEnv, List.isEmpty_iff] at h; simp [mkNEnv, h]
+  have hinit : nlSRem (mkNEnv jt cap rcols cond right) ⟨left, none, none⟩ =
+      left.flatten.flatMap (nlRowOut (mkNEnv jt cap rcols cond right)) := by
+    simp only [nlSRem, Option.getD_none, nlRem, List.nil_append]
+    rw [flatten_flatMap]
+  have := drain_spec (nlNext (mkNEnv jt cap rcols cond right)) (nlSRem (mkNEnv jt cap rcols cond right))
+    (fun s => (s.cur = none → s.rpos = none) ∧
+      ((mkNEnv jt cap rcols cond right).noRight = true ∧ (mkNEnv jt cap rcols cond right).jt ≠ .left → s.cur = none))
+    (fun s hs => by
+      have := nlNext_spec (mkNEnv jt cap rcols cond right) hcap hw s hs.1 hs.2
+      rcases hn : nlNext (mkNEnv jt cap rcols cond right) s with ⟨o, s'⟩
+      rw [hn] at this
+      cases o <;> exact this)
+    fuel ⟨left, none, none⟩ ⟨fun _ => rfl, fun _ => rfl⟩ (by rw [hinit]; exact hfuel)
+  rw [hinit] at this
+  exact this
+
+/-- not LEFT: the relational inner join under the condition (no condition: the product) -/
+theorem nlJoin_inner (jt : JT) (hj : jt ≠ .left) (cap rcols : Nat) (cond : Row → Row → Bool)
+    (left right : List Chunk) (hcap : 1 ≤ cap) (fuel : Nat)
+    (hfuel : (Spec.inner cond left.flatten right.flatten).length < fuel) :
+    (nlJoin jt cap rcols cond left right fuel).2 = true ∧
+    (nlJoin jt cap rcols cond left right fuel).1.flatten = Spec.inner cond left.flatten right.flatten := by
+  have hs : left.flatten.flatMap (nlRowOut (mkNEnv jt cap rcols cond right)) =
+      Spec.inner cond left.flatten right.flatten := by
+    unfold Spec.inner
+    apply flatMap_congr'
+    intro l _
+    simp [nlRowOut, nlRowRem, mkNEnv, hj]
+  have := nlJoin_rows jt cap rcols cond left right hcap fuel (by rw [hs]; exact hfuel)
+  rw [hs] at this
+  exact ⟨this.1, this.2.1⟩
+
+theorem any_false_of_filter_nil {α : Type} (p : α → Bool) (xs : List α) (h : xs.filter p = []) :
+    xs.any p = false := by
+  induction xs with
+  | nil => rfl
+  | cons x xs ih =>
+    by_cases hp : p x = true
+    · simp [List.filter_cons, hp] at h
+    · have hp' : p x = false := by simpa using hp
+      simp only [List.filter_cons, hp', Bool.false_eq_true, if_false] at h
+      simp [hp', ih h]
+
+theorem filter_nil_of_any_false {α : Type} (p : α → Bool) (xs : List α) (h : xs.any p = false) :
+    xs.filter p = [] := by
+  induction xs with
+  | nil => rfl
+  | cons x xs ih =>
+    simp only [List.any_cons, Bool.or_eq_false_iff] at h
+    simp [List.filter_cons, h.1, ih h.2]
+
+theorem any_true_of_filter_ne {α : Type} (p : α → Bool) (xs : List α) (h : xs.filter p ≠ []) :
+    xs.any p = true := by
+  cases ha : xs.any p with
+  | true => rfl
+  | false => exact absurd (filter_nil_of_any_false p xs ha) h
+
+/-- LEFT: the left outer join -/
+theorem nlJoin_left (cap rcols : Nat) (cond : Row → Row → Bool) (left right : List Chunk)
+    (hcap : 1 ≤ cap) (fuel : Nat)
+    (hfuel : (Spec.leftOuter cond rcols left.flatten right.flatten).length < fuel) :
+    (nlJoin .left cap rcols cond left right fuel).2 = true ∧
+    (nlJoin .left cap rcols cond left right fuel).1.flatten =
+      Spec.leftOuter cond rcols left.flatten right.flatten := by
+  have hs : left.flatten.flatMap (nlRowOut (mkNEnv .left cap rcols cond right)) =
+      Spec.leftOuter cond rcols left.flatten right.flatten := by
+    unfold Spec.leftOuter
+    apply flatMap_congr'
+    intro l _
+    simp only [nlRowOut, nlRowRem, mkNEnv, Bool.false_or, true_and]
+    generalize right.flatten = R
+    by_cases h : List.filter (cond l) R = []
+    · simp [h, any_false_of_filter_nil _ _ h]
+    · simp [h, any_true_of_filter_ne _ _ h]
+  have := nlJoin_rows .left cap rcols cond left right hcap fuel (by rw [hs]; exact hfuel)
+  rw [hs] at this
+  exact ⟨this.1, this.2.1⟩
+
+/-- **hash join = nested loop join** (INNER / CROSS), under the key-equality hypothesis: on the
+rows at hand the hash join's match relation agrees with the nested loop join's condition — then
+both operators return the same rows in the same order, whatever the chunkings and capacities -/
+theorem hashJoin_eq_nlJoin (jt : JT) (hj : jt = .inner ∨ jt = .cross) (pk bk : List Nat)
+    (cap cap' lcols rcols : Nat) (cond : Row → Row → Bool) (l l' r r' : List Chunk)
+    (hcap : 1 ≤ cap) (hcap' : 1 ≤ cap') (hl : l.flatten = l'.flatten) (hr : r.flatten = r'.flatten)
+    (hkey : ∀ x ∈ l.flatten, ∀ y ∈ r.flatten, hmatch jt pk bk x y = cond x y) (fuel : Nat)
+    (hfuel : (Spec.inner cond l.flatten r.flatten).length < fuel) :
+    (hashJoin jt pk bk cap lcols rcols l r fuel).1.flatten = (nlJoin jt cap' rcols cond l' r' fuel).1.flatten := by
+  have he : Spec.inner (hmatch jt pk bk) l.flatten r.flatten = Spec.inner cond l.flatten r.flatten := by
+    unfold Spec.inner
+    apply flatMap_congr'
+    intro x hx
+    rw [List.filter_congr (fun y hy => hkey x hx y hy)]
+  have hne : jt ≠ .left := by rcases hj with rfl | rfl <;> simp
+  have a := hashJoin_inner jt hj pk bk cap lcols rcols l r hcap fuel (by rw [he]; exact hfuel)
+  have b := nlJoin_inner jt hne cap' rcols cond l' r' hcap' fuel (by rw [← hl, ← hr]; exact hfuel)
+  rw [a.2, b.2, he, hl, hr]
+
+/-- the key-equality hypothesis holds for `EqualityCondition` on one key column whose cells are
+present, not NULL and not floats -/
+theorem derivedEq_eq_keyEq (a b : Val) (ha : plain a = true) (hb : plain b = true) (han : a ≠ .null)
+    (hbn : b ≠ .null) : valDerivedEq a b = Spec.keyEq a b := by
+  unfold Spec.keyEq
+  rw [bne_null a han, bne_null b hbn]
+  cases a <;> cases b <;> simp_all [valDerivedEq, Grafeo.Ops2.valuesEqual, plain]
+
+theorem hmatch_eq_eqCond_partial (jt : JT) (hj : jt.keepsNull = false) (c c' : Nat) (x y : Row) (a b : Val)
+    (hx : x[c]? = some a) (hy : y[c']? = some b) (ha : plain a = true) (hb : plain b = true)
+    (han : a ≠ .null) (hbn : b ≠ .null) :
+    hmatch jt [c] [c'] x y = eqCond c c' x y := by
+  have gx : x.getD c .null = a := by simp [List.getD, hx]
+  have gy : y.getD c' .null = b := by simp [List.getD, hy]
+  rw [hmatch_eq_keysMatch_partial jt hj c c' x y (by rw [gx]; exact ha) (by rw [gy]; exact hb)]
+  unfold Spec.keysMatch eqCond
+  simp only [List.zip_cons_cons, List.zip_nil_right, List.all_cons, List.all_nil, Bool.and_true, gx, gy, hx, hy]
+  exact (derivedEq_eq_keyEq a b ha hb han hbn).symm
+
+/-- witness (`join nl semi …`): the operator has no SEMI mode, it answers as INNER -/
+theorem witness_nl_semi_is_inner :
+    (nlJoin .semi 2048 1 (eqCond 0 0) [[[.int 1]]] [[[.int 1], [.int 1]]] 5).1 =
+      [[[.int 1, .int 1], [.int 1, .int 1]]] := by decide +kernel
+
+/-- nonvacuity + resume: capacity 2, the second `next()` resumes in the middle of a left row -/
+theorem example_nl_resume_mid_row :
+    nlJoin .left 2 1 (eqCond 0 0) [[[.int 1], [.int 7]]] [[[.int 1]], [[.int 1], [.int 1]]] 10 =
+      ([[[.int 1, .int 1], [.int 1, .int 1]], [[.int 1, .int 1], [.int 7, .null]]], true) := by decide +kernel
+
+/-! ### leapfrog join -/
+
+/-- witness (`join lf 3 0,1 c:/c: I1,I1,# I1,I3,#`): with two key columns the operator joins on
+the first one only — it returns a row the definition (and the hash-join plan) does not -/
+theorem witness_leapfrog_first_key_only :
+    lfRows [0, 1] [[[[.int 1, .int 1, .int 0]]], [[[.int 1, .int 3, .int 0]]]] =
+      [[.int 1, .int 1, .int 0, .int 1, .int 3, .int 0]] ∧
+    Spec.leapfrog [0, 1] [[[[.int 1, .int 1, .int 0]]], [[[.int 1, .int 3, .int 0]]]] = [] := by decide +kernel
+
+/-- witness: with three key columns nothing is returned although the rows agree on all of them -/
+theorem witness_leapfrog_three_keys_empty :
+    lfRows [0, 1, 2] [[[[.int 1, .int 1, .int 1]]], [[[.int 1, .int 1, .int 1]]]] = [] ∧
+    Spec.leapfrog [0, 1, 2] [[[[.int 1, .int 1, .int 1]]], [[[.int 1, .int 1, .int 1]]]] =
+      [[.int 1, .int 1, .int 1, .int 1, .int 1, .int 1]] := by decide +kernel
+
+/-- nonvacuity: one key column, duplicates on both sides — the operator agrees with the definition -/
+theorem example_leapfrog_one_key :
+    lfRows [0] [[[[.int 2, .int 0], [.int 1, .int 1]], [[.int 2, .int 2]]], [[[.int 2, .int 5], [.null, .int 6]]]] =
+      Spec.leapfrog [0] [[[[.int 2, .int 0], [.int 1, .int 1]], [[.int 2, .int 2]]], [[[.int 2, .int 5], [.null, .int 6]]]] := by
+  decide +kernel
+
+
+/-! ### RIGHT / FULL: the unmatched-build phase -/
+
+theorem emitU_step (E : Env) (hcap : 1 ≤ E.cap) (s : HState) (u : List Row) (hs : s.unm = some u) :
+    match hjNext E s with
+    | (none, _) => s.unm.getD [] = []
+    | (some c, s') => c ≠ [] ∧ s.unm.getD [] = c ++ s'.unm.getD [] ∧ s'.unm.isSome = true := by
+  unfold hjNext emitU
+  rw [hs]
+  simp only
+  by_cases h : List.take E.cap u = []
+  · simp only [if_pos h]
+    rcases List.take_eq_nil_iff.mp h with h0 | h0
+    · omega
+    · simp [h0]
+  · simp only [if_neg h]
+    exact ⟨h, by simp, by simp⟩
+
+/-- once `emitting_unmatched` is set (RIGHT / FULL after the last probe chunk), the operator
+returns exactly the rows `build_matched` selects at that moment, in build order, in chunks of at
+most the capacity — none dropped or repeated at a chunk boundary. (That `build_matched` then
+marks exactly the build rows some probe row matched is modelled and compared per line, not
+proved.) -/
+theorem hashJoin_unmatched_phase (E : Env) (hcap : 1 ≤ E.cap) (s : HState) (u : List Row)
+    (hs : s.unm = some u) (fuel : Nat) (hfuel : u.length < fuel) :
+    (drain (hjNext E) fuel s).2 = true ∧ (drain (hjNext E) fuel s).1.flatten = u ∧
+    ∀ c ∈ (drain (hjNext E) fuel s).1, c ≠ [] := by
+  have := drain_spec (hjNext E) (fun s => s.unm.getD []) (fun s => s.unm.isSome = true)
+    (fun s hs => by
+      obtain ⟨u', hu'⟩ := Option.isSome_iff_exists.mp hs
+      have := emitU_step E hcap s u' hu'
+      rcases hn : hjNext E s with ⟨o, s'⟩
+      rw [hn] at this
+      cases o <;> exact this)
+    fuel s (by simp [hs]) (by simp [hs]; exact hfuel)
+  simpa [hs] using this
+
 end Grafeo.Join
